@@ -16,14 +16,15 @@ import (
 )
 
 type GoCase struct {
-	Src     string
-	Rsize   int
-	Mpm     bool
-	ShowReq bool
-	Runs    int
-	Probe   bool
-	Workers int // goroutines started by main (0 without -mpm)
-	Vars    int // declared variables in main
+	Src       string
+	Rsize     int
+	Mpm       bool
+	ShowReq   bool
+	Runs      int
+	Probe     bool
+	Workers   int  // goroutines started by main (0 without -mpm)
+	Vars      int  // declared variables in main
+	ValueArgs bool `json:",omitempty"` // the workers also take a value argument (refused by bondgo: see genGoCase)
 }
 
 func genStmts(t *rapid.T, b *strings.Builder, vars []string, indent string, depth int, n int) {
@@ -87,12 +88,22 @@ func genGoCase(runs func() int) func(t *rapid.T) GoCase {
 		if c.Mpm {
 			c.Workers = rapid.IntRange(1, 3).Draw(t, "workers")
 		}
+		// a value argument of `go f(c, k)` makes bondgo emit a `chw` without its register (open finding
+		// go-value-args of C12): since the repair 2d68142 such a program is refused as a whole, so it is the
+		// rarer form here and the workers normally get their constant as a literal
+		c.ValueArgs = c.Mpm && rapid.IntRange(0, 4).Draw(t, "valueargs") == 0
 		for w := 0; w < c.Workers; w++ {
-			fmt.Fprintf(&b, "func worker%d(c chan %s, k %s) {\n", w, typ, typ)
+			k := "k"
+			if c.ValueArgs {
+				fmt.Fprintf(&b, "func worker%d(c chan %s, k %s) {\n", w, typ, typ)
+			} else {
+				fmt.Fprintf(&b, "func worker%d(c chan %s) {\n", w, typ)
+				k = fmt.Sprint(rapid.IntRange(1, 9).Draw(t, "k"))
+			}
 			vars := genVars(t, &b, typ, fmt.Sprintf("w%d", w))
 			fmt.Fprintf(&b, "\tvar out bondgo.Output\n\tout = bondgo.Make(bondgo.Output, %d)\n", 10+w)
 			for _, v := range vars {
-				fmt.Fprintf(&b, "\t%s = k\n", v)
+				fmt.Fprintf(&b, "\t%s = %s\n", v, k)
 			}
 			fmt.Fprintf(&b, "\tfor {\n\t\t%s = <-c\n", vars[0])
 			genStmts(t, &b, vars, "\t\t", 1, rapid.IntRange(1, 3).Draw(t, "wlen"))
@@ -109,7 +120,11 @@ func genGoCase(runs func() int) func(t *rapid.T) GoCase {
 			fmt.Fprintf(&b, "\t%s = %d\n", v, rapid.IntRange(0, 50).Draw(t, "init"))
 		}
 		for w := 0; w < c.Workers; w++ {
-			fmt.Fprintf(&b, "\tgo worker%d(c%d, %d)\n", w, w, rapid.IntRange(1, 9).Draw(t, "k"))
+			if c.ValueArgs {
+				fmt.Fprintf(&b, "\tgo worker%d(c%d, %d)\n", w, w, rapid.IntRange(1, 9).Draw(t, "k"))
+			} else {
+				fmt.Fprintf(&b, "\tgo worker%d(c%d)\n", w, w)
+			}
 		}
 		genStmts(t, &b, vars, "\t", 0, rapid.IntRange(0, 3).Draw(t, "prolog"))
 		fmt.Fprintf(&b, "\tfor {\n")
